@@ -292,7 +292,7 @@ func vocabMain(x *X) {
 	}
 	if o.Err == "" {
 		if d := Compare(o.Res, ref.Res, Tol); d.Kind != "" {
-			if !(op.hasTopK() && tieAmbiguous(op, c.Data, op.Eng.LookbackMs)) {
+			if !x.undecidable(op, c.Data) {
 				x.Viol("C08", "vocab", key(d.Kind), fmt.Sprintf("%s: %s (path: fallback=%v)", desc, d.Detail, o.Fallback))
 			}
 		}
